@@ -378,7 +378,9 @@ def optimize_circuit(seq):
                 b = q[i + 1]
                 # the ops must have equal size and act on the same wires
                 if a.op.ns == b.op.ns and a.reg == b.reg:
-                    if a.op.ns != 1:
+                    if a.op.ns != 1 or a.op.measurement_deps or b.op.measurement_deps:
+                        # an operation with a measured parameter also sits on the wires of the
+                        # measured subsystems; merging it wire by wire would duplicate it
                         # ns > 1 is tougher. on no wire must there be anything
                         # between them, also deleting is more complicated
                         # todo treat it as a failed merge for now
